@@ -152,6 +152,19 @@ def kf_match(k, case):
     kind = k.get("match", {}).get("kind")
     if kind == "byte-org-unevaluable":
         return has_unevaluable_size(case["prog"]) and case["observed"]["r"] == "ok"
+    if kind == "macro-body-ends-outside-cseg":
+        ends_out = set()
+        name, last = None, "code"
+        for l in case["prog"]:
+            if l["k"] == "macro":
+                name, last = l["n"], "code"
+            elif l["k"] == "seg" and name:
+                last = l["s"]
+            elif l["k"] == "endm" and name:
+                if last != "code":
+                    ends_out.add(name)
+                name = None
+        return bool(ends_out) and any(l["k"] == "call" and l["n"] in ends_out for l in case["prog"])
     if kind == "org-zero-after-content":
         return (case["observed"]["r"] == "ok" and not case["expected"].get("ok")
                 and any(l["k"] == "org" and l["e"] == {"t": "num", "v": 0} for l in case["prog"]))
@@ -209,6 +222,8 @@ def data_item(rnd, kind):
         return data(1, E(1), S("ab"))
     if kind == "dbs":
         return data(1, S("x" * rnd.randrange(0, 6)))
+    if kind == "dbu":
+        return data(1, *rnd.choice([[S("é")], [S("é"), E(1)], [S("°C")], [E(2), S("ñandú")], [S("€")]]))
     if kind == "dw":
         return data(2, *[E(rnd.randrange(65536)) for _ in range(rnd.randrange(1, 3))])
     if kind == "dd":
@@ -230,7 +245,7 @@ def layout_item(rnd, kind, labels):
         return instr("lds", R(16 + rnd.randrange(16)), E(0x60 + rnd.randrange(0x40)))
     if kind == "sts":
         return instr("sts", E(0x60 + rnd.randrange(0x40)), R(16 + rnd.randrange(16)))
-    if kind in ("db1", "db2", "db3", "dbs", "dw", "dd", "dq"):
+    if kind in ("db1", "db2", "db3", "dbs", "dbu", "dw", "dd", "dq"):
         return data_item(rnd, kind)
     if kind == "byte":
         return byte(rnd.choice([1, 2, 3, 7]))
@@ -266,7 +281,7 @@ def orgs_well_placed(prog):
 
 def gen_layout_exhaustive(maxlen, devs):
     """All sequences up to maxlen over the layout alphabet x device classes."""
-    alpha = ["w1", "w2", "lds", "sts", "db1", "db2", "db3", "dw", "dq", "byte", "label", "org+", "code", "data", "eeprom"]
+    alpha = ["w1", "w2", "lds", "sts", "db1", "db2", "db3", "dbu", "dw", "dq", "byte", "label", "org+", "code", "data", "eeprom"]
     rnd = random.Random(1)
     out = []
     for n in range(1, maxlen + 1):
@@ -301,7 +316,7 @@ def gen_layout_exhaustive(maxlen, devs):
 
 def gen_layout_random(rnd, n, devs):
     out = []
-    kinds = ["w1", "w1", "w2", "lds", "sts", "db1", "db2", "db3", "dbs", "dw", "dd", "dq", "label", "label"]
+    kinds = ["w1", "w1", "w2", "lds", "sts", "db1", "db2", "db3", "dbs", "dbu", "dw", "dd", "dq", "label", "label"]
     for _ in range(n):
         dev = rnd.choice(devs)
         prog, labels = [], []
@@ -328,7 +343,7 @@ def gen_layout_random(rnd, n, devs):
             elif cur == "data":
                 k = rnd.choice(["byte", "byte", "label"])
             else:
-                k = rnd.choice(["db1", "db2", "db3", "dbs", "dw", "dd", "dq", "byte", "label"])
+                k = rnd.choice(["db1", "db2", "db3", "dbs", "dbu", "dw", "dd", "dq", "byte", "label"])
             if faulty and rnd.random() < 0.05:
                 k = rnd.choice(["w1", "db1", "byte"])     # possibly in the wrong segment
             prog.append(layout_item(rnd, k, labels))
@@ -371,6 +386,16 @@ def check_c02(prop, tier, seed, devices):
         prog = [equ("k1", 3), setv("v1", 2), instr("nop", lab="l0"), org(binop("+", copy.deepcopy(e), lit(4))), instr("ret", lab="a"), equ("late", 2)]
         observe_labels(prog, ["a"])
         cases.append(Case(prog, tag=tag.replace("size", "org")))
+    # layout through macro expansion: bodies that begin with / contain .org, switch segments, define labels used outside
+    mb = {n: (k, b) for n, k, b in macro_bodies()}
+    for name, args in (("vector", [E(3)]), ("vector", [E(0x20)]), ("vectorlit", [R(17)]), ("midorg", [E(5)]), ("eefirst", [E(9)]), ("ramfirst", [E(4)]),
+                       ("ramvar", [E(2)]), ("eevar", [E(7)])):
+        kinds_, body = mb[name]
+        for pre in ([], [instr("nop")], [instr("nop"), instr("jmp", E(0))], [seg("eeprom"), data(1, E(1)), seg("code"), instr("nop")]):
+            prog = [line("macro", n=name)] + copy.deepcopy(body) + [line("endm")] + copy.deepcopy(pre) + [call(name, *copy.deepcopy(args)), instr("ret", lab="behind"),
+                                                                                                    seg("eeprom"), data(1, E(0x77), lab="eebehind")]
+            observe_labels(prog, ["behind", "eebehind"])
+            cases.append(Case(prog, tag="macro-layout"))
     # exact origins: at the counter (legal), below it and back to zero after content (errors)
     for k in (1, 2, 5):
         for target, tag in ((k, "org-at-counter"), (k - 1, "org-below-counter"), (0, "org-zero-after-content"), (k + 1, "org-forward")):
@@ -383,7 +408,7 @@ def check_c02(prop, tier, seed, devices):
                 cases.append(Case(prog, tag=tag))
     return run_cases(prop, tier, seed, cases, devices, keyf=default_key, mc=mc,
                      extra=[pipeline_extra(sample=2500 if tier == "quick" else 20000, fixtures=True, suite=True, seed=seed)],
-                     rule="all sequences up to length 3 (quick) / 4 (thorough) over a 15-symbol layout alphabet x 3 device classes, "
+                     rule="all sequences up to length 3 (quick) / 4 (thorough) over a 16-symbol layout alphabet x 3 device classes, "
                           "plus seeded random programs of 5-60 items over 5 devices; each with a .dw table of its labels; "
                           "distinct = distinct rendered source",
                      assumptions=["an .org that is not followed by a space-occupying item in its block is not generated (property silent)"])
@@ -496,6 +521,23 @@ def check_c03(prop, tier, seed, devices):
             tgt = binop("+", sym("pc"), lit(1 + d)) if d >= -1 else binop("-", sym("pc"), lit(-d - 1))
             ops_ = ([E(sbit)] if sbit is not None else []) + [E(tgt)]
             cases.append(Case([instr("nop"), instr("nop"), instr(mn, *ops_), instr("ret")], tag="far"))
+    # under devices: one-word lds/sts of the reduced core (and two-word ones elsewhere) between instruction and target
+    for devname in ("ATtiny20", "ATmega48", "ATtiny13"):
+        for kind in (("brne", None), ("rjmp", None), ("rcall", None), ("brbs", 3)):
+            for d in (-5, -2, -1, 0, 1, 2, 3, 7):
+                for which in ("lds", "sts", "both"):
+                    mn, sbit = kind
+                    gap = []
+                    if which in ("lds", "both"):
+                        gap.append(instr("lds", R(17), E(0x50)))
+                    if which in ("sts", "both"):
+                        gap.append(instr("sts", E(0x51), R(18)))
+                    ops_pre = [E(sbit)] if sbit is not None else []
+                    if d >= 0:
+                        prog = [line("device", n=devname), instr(mn, *(ops_pre + [E(sym("target"))]))] + gap + [instr("nop") for _ in range(d)] + [label("target"), instr("ret")]
+                    else:
+                        prog = [line("device", n=devname), label("target")] + gap + [instr("nop") for _ in range(-d)] + [instr(mn, *(ops_pre + [E(sym("target"))])), instr("ret")]
+                    cases.append(Case(prog, tag="device"))
     return run_cases(prop, tier, seed, cases, devices, keyf=default_key, extra=[pipeline_extra(sample=1200, seed=seed)],
                      rule="<prefix, branch/jump, filler, target> forward and backward for 34 branch forms + rjmp/rcall; every boundary "
                           "distance for every form, every distance -70..70 with forms rotated; fillers: nop, jmp, odd .db, .dw, 3-byte .db, "
@@ -557,6 +599,13 @@ def check_c06(prop, tier, seed, devices):
     for n in (0, 1, 2, 5):
         for segname in ("eeprom", "code", "data"):
             cases.append(Case([seg(segname), data(1, E(1)) if segname == "eeprom" else line("blank"), byte(n), data(1, E(2)) if segname == "eeprom" else line("blank")], tag="byte." + segname))
+    for w in (1, 2, 4, 8):
+        for segname in ("eeprom", "code"):
+            for els in ([ARG(0)], [ARG(0), E(2), E(3)], [E(1), ARG(0)], [S("ab"), ARG(0)] if w == 1 else [ARG(0), ARG(0)]):
+                body = ([seg(segname)] if segname != "code" else []) + [data(w, *copy.deepcopy(els))] + ([seg("code")] if segname != "code" else []) + [instr("nop")]
+                for pre in ([], [instr("nop")], [seg("eeprom"), data(1, E(0x11)), seg("code")]):
+                    prog = [line("macro", n="emit")] + copy.deepcopy(body) + [line("endm")] + copy.deepcopy(pre) + [call("emit", E(0x41)), call("emit", E(lit(-2)))]
+                    cases.append(Case(prog, tag="macro-data"))
     # reservations and data in EEPROM blocks that do not start at address 0: after .org, and in a block resumed
     # after another segment
     for n in (0, 1, 2, 5):
@@ -782,8 +831,11 @@ def cond_structures(n, depth):
     return block(n, depth)
 
 
-IF_FORMS = ["if0", "if1", "ifk1", "ifk2", "ifdef", "ifndef"]
+IF_FORMS = ["if0", "if1", "ifk1", "ifk2", "ifdef", "ifndef", "ifneg", "ifbig", "ifdiff"]
 STMTS = ["mark", "msg", "garbage", "define", "mark", "labeluse"]
+
+
+CONDK = ("if", "ifdef", "ifndef", "elif", "else", "endif")
 
 
 def cond_program(struct, choice):
@@ -814,11 +866,17 @@ def cond_program(struct, choice):
                 prog.append(line("if", e=lit(int(f[-1]))))
             elif f in ("ifk1", "ifk2"):
                 prog.append(line("if", e=binop("==", sym("kk"), lit(int(f[-1])))))
+            elif f == "ifneg":
+                prog.append(line("if", e=un("-", lit(1))))                      # any non-zero value holds
+            elif f == "ifbig":
+                prog.append(line("if", e=binop("<<", lit(1), lit(63))))
+            elif f == "ifdiff":
+                prog.append(line("if", e=binop("-", sym("kk"), lit(3))))
             else:
                 prog.append(line(f, n="FLAG"))
         elif s[0] == "elif":
-            f = choice(i, ["0", "1", "k1", "k2"])
-            prog.append(line("elif", e=lit(int(f)) if f in "01" else binop("==", sym("kk"), lit(int(f[-1])))))
+            f = choice(i, ["0", "1", "k1", "k2", "neg"])
+            prog.append(line("elif", e=lit(int(f)) if f in "01" else un("~", lit(0)) if f == "neg" else binop("==", sym("kk"), lit(int(f[-1])))))
     return prog
 
 
@@ -856,10 +914,17 @@ def check_c08(prop, tier, seed, devices):
             assigns = [lambda i, o: o[0], lambda i, o: o[1 % len(o)]]
             for _ in range(per_struct):
                 assigns.append(lambda i, o, r=random.Random(rnd.random()): r.choice(o))
-            for ch in assigns:
+            for ci, ch in enumerate(assigns):
                 prog = cond_program(struct, ch)
                 texts = [l["txt"] for l in prog if l["k"] == "message"]
                 cases.append(Case(prog, tag="len%d" % n, msg_texts=texts))
+                if ci >= 2:
+                    # the same program with (some of) its conditional directives in the '#' spelling
+                    p2 = copy.deepcopy(prog)
+                    for l in p2:
+                        if l["k"] in CONDK and rnd.random() < 0.7:
+                            l["pfx"] = "#"
+                    cases.append(Case(p2, tag="len%d#" % n, msg_texts=texts))
     # de-duplicate
     seen, uniq = set(), []
     for c in cases:
@@ -942,10 +1007,14 @@ def check_c15(prop, tier, seed, devices):
                      line("elif", e=lit(1)), instr("ldi", R(16), E(3)), line("else"), instr("ldi", R(16), E(4)), line("endif"),
                      line("if", e=lit(1)), line("if", e=lit(0)), instr("ret"), line("elif", e=lit(1)), instr("sei"), line("elif", e=lit(1)), instr("cli"),
                      line("endif"), line("elif", e=lit(1)), instr("nop"), line("endif"), instr("sleep")]
+    nested = lambda: [instr("nop"), line("if", e=lit(0)), line("ifndef", n="NOPE"), instr("ldi", R(16), E(1)), line("endif"), instr("ldi", R(16), E(2)),
+                      line("ifdef", n="NOPE"), instr("ldi", R(16), E(3)), line("else"), instr("ldi", R(16), E(4)), line("endif"), instr("ldi", R(16), E(5)),
+                      line("else"), line("ifndef", n="NOPE"), instr("ldi", R(16), E(6)), line("endif"), instr("ldi", R(16), E(7)), line("endif"), instr("sleep")]
     n = 0
     for combo in itertools.product([None, "message", "warning", "error"], repeat=4):
         for skel, places in ((skeleton, [0, 2, 4, 9]), (skeleton, [1, 3, 7, 10]), (skeleton, [2, 2, 5, 8]),
-                             (chain, [2, 4, 6, 8]), (chain, [5, 7, 9, 22]), (chain, [12, 14, 16, 19])):
+                             (chain, [2, 4, 6, 8]), (chain, [5, 7, 9, 22]), (chain, [12, 14, 16, 19]),
+                             (nested, [3, 5, 7, 9]), (nested, [5, 11, 14, 16]), (nested, [1, 9, 12, 18])):
             prog = skel()
             texts = []
             ins = sorted(((p, k) for p, k in zip(places, combo) if k), key=lambda x: -x[0])
@@ -962,7 +1031,7 @@ def check_c15(prop, tier, seed, devices):
                           "out of range, undefined symbol in instruction/data/.set/.if/.elif also beside a deciding && / ||, zero divisor, misfit, string in .dw, "
                           "duplicate label, .error), each built as is and "
                           "shifted down by 7 lines; the error text must contain the specification's fault line as an integer token both times; "
-                          "plus 1536 placements of .message/.warning/.error in and around taken and untaken branches, including .elif chains and nested chains",
+                          "plus 2304 placements of .message/.warning/.error in and around taken and untaken branches, including .elif chains and nested chains",
                      assumptions=["messages from macro bodies and line numbers inside included files are not checked (property silent)"])
 
 
@@ -1028,6 +1097,12 @@ def check_c12(prop, tier, seed, devices):
     cases.append(Case([instr("nop"), line("device", n="ATmega8"), instr("nop")], tag="device-after-code"))
     for name in sorted(devices):
         cases.append(Case([line("device", n=name), instr("nop"), seg("data"), byte(0)], tag="sizes"))
+        d = devices[name]
+        # the selection made by a macro body (part files are often wrapped like that) counts like any other
+        cases.append(Case([line("macro", n="chip"), line("device", n=name), line("endm"), call("chip"), instr("nop"), seg("data"), byte(0)], tag="device-in-macro"))
+        cases.append(Case([line("macro", n="chip"), line("device", n=name), line("endm"), call("chip"), org(d["flash"] - 1), instr("nop"), instr("nop")],
+                          tag="device-in-macro", mat=False))
+        cases.append(Case([line("if", e=lit(1)), line("device", n=name), line("endif"), org(d["flash"] - 1), instr("nop")], tag="device-in-branch", mat=False))
     return run_cases(prop, tier, seed, cases, devices, keyf=default_key, exhaustive=True, extra=[partfile_check(devices), pipeline_extra(sample=800, seed=seed)],
                      rule="every device of the table (and none) x {flash, EEPROM, RAM} x {capacity-1, capacity, capacity+1} reached by "
                           "instructions, data, reservations and .org; unknown device; second device; reported sizes for every device; "
@@ -1129,13 +1204,22 @@ def macro_bodies():
     out.append(("ramvar", "e", [instr("ldi", R(16), E(1)), seg("data"), byte(arg(0)), seg("code"), instr("ldi", R(17), E(2))]))
     out.append(("eevar", "e", [instr("ldi", R(18), E(3)), seg("eeprom"), data(1, ARG(0)), seg("code"), instr("ldi", R(19), E(4))]))
     out.append(("noargs", "", [instr("nop"), instr("ret")]))
+    out.append(("vector", "e", [org(binop("+", arg(0), lit(0x10))), instr("rjmp", E(binop("+", sym("pc"), lit(2)))), instr("reti")]))
+    out.append(("vectorlit", "r", [org(0x30), instr("inc", ARG(0))]))
+    out.append(("midorg", "e", [instr("nop"), org(binop("+", arg(0), lit(0x40))), instr("ret"), data(2, E(sym("pc")))]))
+    out.append(("eefirst", "e", [seg("eeprom"), data(1, ARG(0), E(2), E(3)), seg("code"), instr("nop")]))
+    out.append(("eeonly", "e", [seg("eeprom"), data(2, ARG(0)), byte(1)]))          # ends in the EEPROM segment: known finding
+    out.append(("ramfirst", "e", [seg("data"), byte(arg(0)), seg("code")]))
+    out.append(("ten", "rrreeeeeee", [instr("mov", ARG(0), ARG(1)), instr("ldi", ARG(2), E(binop("&", arg(9), lit(255)))),
+                                      data(1, ARG(3), ARG(4), ARG(5), ARG(6), ARG(7), ARG(8), ARG(9))]))
+    out.append(("tenfwd", "rrreeeeeee", [call("ten", ARG(2), ARG(1), ARG(0), ARG(9), ARG(8), ARG(7), ARG(6), ARG(5), ARG(4), ARG(3))]))
     out.append(("third", "eee", [data(1, ARG(2), ARG(0))]))
     return out
 
 
 def arg_values(kind, rnd):
     if kind == "r":
-        return [R(rnd.choice([16, 17, 24, 31]))]
+        return [R(rnd.choice([16, 17, 24, 31, 20, 29]))]
     if kind == "x":
         return [IX("Y", "disp", lit(rnd.randrange(0, 64))), IX("Z", "disp", binop("+", lit(1), lit(2)))]
     return [E(lit(rnd.randrange(0, 9))), E(binop("+", lit(1), lit(2))), E(par(binop("+", lit(1), lit(2)))), E(binop("*", lit(2), lit(3))),
@@ -1187,6 +1271,14 @@ def check_c09(prop, tier, seed, devices):
                     seen.add(dn)
                     defs += definition(dn, db, defcase if dn == name else "lower")
             placement = rnd.choice(["after-def", "before-def", "both", "after-org", "after-seg"])
+            # an .org directly followed by another .org or by a segment switch is a shape the properties leave open
+            # (C02 excludes it as well): a body that starts with one is not called right after an .org
+            if placement == "after-org" and body[0]["k"] in ("org", "seg"):
+                placement = "after-seg"
+            # the same origin cannot be used twice: bodies with a fixed .org are called once
+            if any(l["k"] == "org" for l in body):
+                argsets = argsets[:1]
+                calls = calls[:1]
             head = [equ("kk", 5)]
             if placement == "after-def":
                 prog = head + defs + [instr("nop")] + calls + [instr("ret")]
